@@ -23,7 +23,7 @@ import json
 
 DRIVERS = ["drv_c25"]
 RULE = ("one case = one generated model text (scalar variables of every variability, Real / Integer / Boolean, literal "
-        "start / value / fixed, an optional sub-model instance giving dotted names, optional user functions of 1 / 3 "
+        "start / value / fixed, an optional sub-model instance giving dotted names, optional user functions of 0 / 1 / 3 "
         "arguments, equations over unary, binary and n-ary operators, function calls, literals and references, optional "
         "single-branch when-equation with reinit); non-trivial = the model has at least 2 equations and one operator of "
         "arity 1 and one of arity >= 2; distinct = distinct model text")
@@ -54,7 +54,7 @@ class Gen:
         self.stream = stream
         self.reals = []      # names usable in Real expressions
         self.bools = []
-        self.uses = {"g3": False, "P.h": False}
+        self.uses = {"g3": False, "f0": False, "P.h": False}
         self.stats = {"unary": 0, "nary": 0, "eqs": 0}
 
     def lit(self):
@@ -96,6 +96,10 @@ class Gen:
             self.stats["nary"] += 1
             self.uses["g3"] = True
             return "g3(%s, %s, %s)" % (self.real(d - 1), self.real(d - 1), self.real(d - 1))
+        if k < 0.94:
+            self.stats["nary"] += 1
+            self.uses["f0"] = True
+            return "f0()"
         if k < 0.98:
             self.stats["unary"] += 1
             self.uses["P.h"] = True
@@ -226,6 +230,8 @@ class Gen:
         pre = ""
         if self.uses["g3"]:
             pre += "function g3 input Real a; input Real b; input Real c; output Real y; algorithm y := a + b * c; end g3; "
+        if self.uses["f0"]:
+            pre += "function f0 output Real y; algorithm y := 1; end f0; "
         if self.uses["P.h"]:
             pre += "package P function h input Real a; output Real y; algorithm y := 2 * a; end h; end P; "
         self.stats["eqs"] = len(eqs)
